@@ -83,11 +83,14 @@ func (h *history) nontrivial() bool {
 var behaviours = []string{"value", "error", "panic", "sovf", "fovf", "cancelled"}
 
 var flavours = map[string][]string{
-	"value":     {"plain", "tick", "tick", "inc", "try", "import", "callback"},
-	"error":     {"index", "mid", "loop", "switch", "raise", "top"},
-	"panic":     {"div", "mod", "closure"},
-	"sovf":      {"fn", "top"},
-	"fovf":      {"rec"},
+	"value": {"plain", "tick", "tick", "inc", "try", "import", "callback"},
+	"error": {"index", "mid", "loop", "switch", "raise", "top", "under-defers"},
+	"panic": {"div", "mod", "closure", "div-under-defers", "callback-under-defers", "defer-fails-during-panic"},
+	"sovf":  {"fn", "top"},
+	// frame overflow: plain runaway recursion, and recursion whose every level has a pending script-level
+	// defer (of a function / of a closure), so that the overflow panic unwinds through the deferred calls;
+	// "defer-self": the deferred call itself recurses during the unwind
+	"fovf":      {"rec", "defer-fn", "defer-closure", "defer-fn", "defer-closure", "defer-self"},
 	"cancelled": {"tick"},
 }
 
@@ -140,6 +143,39 @@ func fmod(a) { return 10 % a }
 func fclos(a) { return func(b) { return func(c) { return a + b + c } } }
 func fclos3(a) { return fclos(a)(2)(3) }
 func frec(n) { return frec(n + 1) + 1 }
+func noop() { return 0 }
+func fdrec(n) {
+	defer noop()
+	return fdrec(n + 1) + 1
+}
+func fdcrec(n) {
+	defer func() { return n }()
+	return fdcrec(n + 1) + 1
+}
+func fdself(n) {
+	defer fdself(n + 1)
+	return n
+}
+func fddiv(n) {
+	defer noop()
+	if n == 0 { return 10 / n }
+	return fddiv(n - 1) + 1
+}
+func fdcb(n) {
+	defer func() { return n }()
+	if n == 0 { return [1, 2].map(func(v) { return v / n }) }
+	return fdcb(n - 1)
+}
+func fdfail(n) {
+	defer func() { return [0][5] }()
+	if n == 0 { return 10 / n }
+	return fdfail(n - 1) + 1
+}
+func fderr(n) {
+	defer noop()
+	if n == 0 { return 1 + [0][5] }
+	return fderr(n - 1) + 1
+}
 func fsovf(a) { return len(` + big + `) + a }
 `
 }
@@ -178,6 +214,8 @@ func callOf(v *inv) (fn string, args []int, inline string) {
 			if v.API != "Call" {
 				return "", nil, "[1, 2 + [0][5], 3]"
 			}
+		case "under-defers":
+			return "fderr", []int{v.D}, ""
 		}
 		return "ferr", []int{v.D}, ""
 	case "panic":
@@ -186,6 +224,12 @@ func callOf(v *inv) (fn string, args []int, inline string) {
 			return "fmod", []int{0}, ""
 		case "closure":
 			return "fclos3", []int{1}, ""
+		case "div-under-defers":
+			return "fddiv", []int{v.A % 7}, ""
+		case "callback-under-defers":
+			return "fdcb", []int{v.A % 7}, ""
+		case "defer-fails-during-panic":
+			return "fdfail", []int{v.A % 7}, ""
 		}
 		return "fdiv", []int{0}, ""
 	case "sovf":
@@ -194,6 +238,14 @@ func callOf(v *inv) (fn string, args []int, inline string) {
 		}
 		return "fsovf", []int{v.A}, ""
 	case "fovf":
+		switch v.Flavor {
+		case "defer-fn":
+			return "fdrec", []int{0}, ""
+		case "defer-closure":
+			return "fdcrec", []int{0}, ""
+		case "defer-self":
+			return "fdself", []int{0}, ""
+		}
 		return "frec", []int{0}, ""
 	case "cancelled":
 		return "ftick", []int{1000000}, ""
